@@ -45,7 +45,7 @@ MCInit ==
     /\ nextVal = 1
     /\ ops = [c \in Clients |-> 0]
 
-Start(c) == ops[c] < Budget /\ ops' = [ops EXCEPT ![c] = @ + 1]
+Start(c) == ops[c] < Budget /\ pol.handles /\ ops' = [ops EXCEPT ![c] = @ + 1]
 
 ClientStart(c) ==
     /\ Start(c)
@@ -116,6 +116,9 @@ MCPClrTake == Keep /\ PClrTake
 MCPCleanItem == Keep /\ PCleanItem
 MCPCleanEnd == Keep /\ PCleanEnd
 MCPCleanupDone == Keep /\ PCleanupDone
+MCDropAll == Keep /\ "drop" \in Ops /\ DropAll
+MCPStopDisc == Keep /\ PStopDisc
+MCLStopDisc == Keep /\ LStopDisc
 MCPTick == Keep /\ TickOn /\ PTick
 MCPCleanupKey == Keep /\ \E i \in Idx : PCleanupKey(i)
 MCPStop == Keep /\ \E c \in Clients : PStop(c)
@@ -132,7 +135,7 @@ ProcStep ==
     \/ MCPCleanItem
     \/ MCPCleanEnd
     \/ MCPCleanupDone
-    \/ MCPTick \/ MCPCleanupKey \/ MCPStop \/ MCLStop
+    \/ MCPTick \/ MCPCleanupKey \/ MCPStop \/ MCLStop \/ MCPStopDisc \/ MCLStopDisc
 
 Clock == /\ UNCHANGED <<nextVal, ops>>
          /\ \E dt \in AdvSet : now + dt <= MaxNow /\ Advance(dt)
@@ -169,7 +172,8 @@ MCNext ==
     \/ MCPCleanItem
     \/ MCPCleanEnd
     \/ MCPCleanupDone
-    \/ MCPTick \/ MCPCleanupKey \/ MCPStop \/ MCLStop
+    \/ MCPTick \/ MCPCleanupKey \/ MCPStop \/ MCLStop \/ MCPStopDisc \/ MCLStopDisc
+    \/ MCDropAll
     \/ Clock
 
 MCSpec == MCInit /\ [][MCNext]_mcvars
@@ -186,6 +190,8 @@ EveryCallReturns == \A c \in Clients : (cli[c].pc # "idle") ~> (cli[c].pc = "idl
 EveryCallReturnsStrict == \A c \in Clients : (cli[c].pc # "idle") ~> (cli[c].pc = "idle")
 \* C12: after a close() has returned Ok both workers are gone (sync) / have their stop signal (async)
 WorkersStop == (closed) ~> (proc.pc = "exited" /\ (~pol.alive \/ pol.q > 0))
+\* C12: after the last handle was dropped (without close()) both workers are gone
+WorkersStopAfterDrop == (~pol.handles) ~> (proc.pc = "exited" /\ ~pol.alive)
 \* a blocked client with nobody able to release it
 Stuck == \E c \in Clients : cli[c].pc \in {"waiting", "cls_stop_wait", "cls_pol_wait", "rem_blocked"} /\ ~ENABLED MCNext
 NoStuck == ~Stuck
